@@ -26,3 +26,19 @@ Definition run_clashes (n : nat) (atoms : list catom) : val :=
   end.
 (* all 32 option sets at once *)
 Definition run_clashes_all (atoms : list catom) : val := VL (map (fun n => run_clashes n atoms) (seq 0 32)).
+
+(* ---- annotation *)
+From RV Require Import Model.Annot.
+Definition mkres (model : Z) (chain : str) (number : Z) (icode : option str) (letter : str) (atoms : list (str * (Z * Z * Z))) : res3 :=
+  {| r_model := model; r_chain := chain; r_number := number; r_icode := icode; r_letter := letter; r_atoms := atoms |}.
+Definition vtriple (t : nat * nat * nat) : val := match t with (a, b, c) => VL [vnat a; vnat b; vnat c] end.
+Definition run_find_pairs (rs : list res3) (order : list (nat * nat)) : val :=
+  let o := find_pairs rs order in
+  VL [vbool (po_near o);
+      vlist (fun p => match p with (i, j, lw, sa) => VL [vnat i; vnat j; vstr lw; match sa with Some s => vstr s | None => VN end] end) (po_pairs o);
+      vlist vtriple (po_bph o); vlist vtriple (po_br o)].
+Definition run_find_stackings (rs : list res3) (order : list (nat * nat)) : val :=
+  let o := find_stackings rs order in
+  VL [vbool (so_near o); vlist (fun p => match p with (i, j, t) => VL [vnat i; vnat j; VS t] end) (so_stackings o)].
+Definition run_hbond_neighbours (rs : list res3) : val := vlist (vpair vnat vnat) (hbond_neighbours rs).
+Definition run_stacking_neighbours (rs : list res3) : val := vlist (vpair vnat vnat) (stacking_neighbours rs).
